@@ -23,6 +23,8 @@ type Item struct {
 	ID int64 `gorm:"primaryKey"`
 	V  int64
 	N  *int64 // NULL in every third row
+	// KeyCopy: a column whose name has two words (key_copy), equal to the key
+	KeyCopy int64
 }
 
 // CK: a model with a composite primary key (single-record finders whose destination carries a key)
@@ -277,7 +279,7 @@ func run(db *gorm.DB, in Input) (o Obs) {
 	if len(in.Tbl) > 0 {
 		items := make([]Item, len(in.Tbl))
 		for i, r := range in.Tbl {
-			items[i] = Item{ID: r.ID, V: r.V}
+			items[i] = Item{ID: r.ID, V: r.V, KeyCopy: r.ID}
 			if r.ID%3 != 0 {
 				n := r.ID
 				items[i].N = &n
@@ -337,12 +339,22 @@ func run(db *gorm.DB, in Input) (o Obs) {
 		for _, p := range ptrs {
 			o.Ptrs = append(o.Ptrs, Row{p.ID, p.V})
 		}
+		// an array that already holds records (a reused destination): every slot that is not
+		// zero afterwards is reported as a row
 		var arr [16]Item
+		for i := range arr {
+			arr[i] = Item{ID: -7 - int64(i), V: -7}
+		}
 		r := chain(db, in).Find(&arr)
 		fail("array", r.Error)
 		o.Array = []Row{}
-		for i := 0; i < int(r.RowsAffected) && i < len(arr); i++ {
-			o.Array = append(o.Array, Row{arr[i].ID, arr[i].V})
+		for i := range arr {
+			if arr[i].ID != 0 {
+				o.Array = append(o.Array, Row{arr[i].ID, arr[i].V})
+			}
+		}
+		if want := r.RowsAffected; r.Error == nil && want <= int64(len(arr)) && int64(len(o.Array)) != want {
+			o.Errs = append(o.Errs, fmt.Sprintf("array: RowsAffected=%d, %d non-zero slots", want, len(o.Array)))
 		}
 		var one Item
 		r = chain(db, in).Find(&one)
@@ -406,6 +418,15 @@ func run(db *gorm.DB, in Input) (o Obs) {
 		o.Errs = append(o.Errs, fmt.Sprintf("pluck: RowsAffected=%d for %d values", pr.RowsAffected, len(o.PluckID)))
 	}
 	fail("pluck_v", chain(db, in).Model(&Item{}).Pluck("v", &o.PluckV).Error)
+	// Pluck on a chain that already carries a Select: the plucked column decides
+	for _, sel := range [][]interface{}{{"id", "v"}, {"v"}, {"key_copy", "n", "v"}} {
+		var vs []int64
+		if err := chain(db, in).Model(&Item{}).Select(sel[0], sel[1:]...).Pluck("v", &vs).Error; err != nil {
+			o.Errs = append(o.Errs, fmt.Sprintf("pluck after Select%v: %v", sel, err))
+		} else if fmt.Sprint(vs) != fmt.Sprint(o.PluckV) && len(vs)+len(o.PluckV) > 0 {
+			o.Errs = append(o.Errs, fmt.Sprintf("pluck after Select%v: %v, plain Pluck: %v", sel, vs, o.PluckV))
+		}
+	}
 	// Count (compared only for chains without limit/offset)
 	o.Count = -1
 	if len(in.Lops) == 0 {
@@ -563,7 +584,7 @@ func selectedColumns(db *gorm.DB, in Input, o *Obs) {
 	if len(in.Lops) > 0 {
 		return
 	}
-	sels := [][]interface{}{{"n", "v"}, {"v", "n"}, {[]string{"n", "v"}}, {"n, v"}, {"v"}, {"id", "n"}}
+	sels := [][]interface{}{{"n", "v"}, {"v", "n"}, {[]string{"n", "v"}}, {"n, v"}, {"v"}, {"id", "n"}, {"key_copy"}, {"KeyCopy"}, {"key_copy", "v"}}
 	sel := sels[(len(in.Tbl)+int(in.BS))%len(sels)]
 	if in.SelNull {
 		sel = []interface{}{"n"}
